@@ -1015,83 +1015,120 @@ Proof.
       * exact IH.
 Qed.
 
-(* does the child c add one to the cell (a, b)? *)
-Definition dep_hit (svc : list (str * str)) (a b : str) (c : span) : bool :=
-  negb (is_empty (sp_parent c)) &&
-  match lookup (sp_parent c) svc with
-  | Some ps => negb (str_eqb ps (sp_service c)) && str_eqb ps a && str_eqb (sp_service c) b
-  | None => false
-  end.
-
-Lemma dep_fold svc a b l : forall mat,
-  dep_count (fold_left (dep_step svc) l mat) (a, b) = dep_count mat (a, b) + N.of_nat (length (filter (dep_hit svc a b) l)).
+(* the struct key spanKey{traceID, spanID}: equal iff both fields are equal *)
+Lemma app_inj_len {A} (a a' b b' : list A) : length a = length a' -> a ++ b = a' ++ b' -> a = a' /\ b = b'.
 Proof.
-  induction l as [|c l IH]; intro mat; cbn [fold_left filter]; [cbn; lia|].
-  rewrite IH. unfold dep_step at 1. unfold dep_hit at 2.
-  destruct (is_empty (sp_parent c)); cbn [negb andb]; [lia|].
-  destruct (lookup (sp_parent c) svc) as [ps|]; [|lia].
-  destruct (str_eqb ps (sp_service c)); cbn [negb andb]; [lia|].
-  rewrite dep_count_incr. unfold pair_eqb; cbn [fst snd].
-  destruct (str_eqb ps a && str_eqb (sp_service c) b); cbn [length]; lia.
+  revert a'. induction a as [|x a IH]; intros [|y a'] Hl H; cbn in *; try discriminate; [tauto|].
+  inversion H; subst. destruct (IH a' ltac:(lia) H2) as [-> ->]. tauto.
+Qed.
+Lemma skey_inj t i t' i' : skey t i = skey t' i' <-> t = t' /\ i = i'.
+Proof.
+  unfold skey. split; [|intros [-> ->]; reflexivity].
+  intro H. inversion H as [[Hl Happ]]. apply Nat2N.inj in Hl. exact (app_inj_len _ _ _ _ Hl Happ).
+Qed.
+Lemma skey_eqb t i t' i' : str_eqb (skey t i) (skey t' i') = str_eqb t t' && str_eqb i i'.
+Proof.
+  destruct (str_eqb (skey t i) (skey t' i')) eqn:E.
+  - apply str_eqb_eq, skey_inj in E as [-> ->]. rewrite !str_eqb_refl. reflexivity.
+  - symmetry. apply not_true_is_false. intro H. apply andb_true_iff in H as [H1 H2].
+    apply str_eqb_eq in H1, H2. subst. rewrite str_eqb_refl in E. discriminate.
 Qed.
 
 Lemma find_app {A} (f : A -> bool) l1 l2 :
   find f (l1 ++ l2) = match find f l1 with Some x => Some x | None => find f l2 end.
 Proof. induction l1 as [|x l1 IH]; cbn; [reflexivity|]. destruct (f x); [reflexivity | exact IH]. Qed.
 
+Section Keyed.
+Variable kf : span -> str.     (* the key a span is stored under *)
+Variable pk : span -> str.     (* the key its parent is looked up with *)
+
+(* does the child c add one to the cell (a, b)? *)
+Definition dep_hit (svc : list (str * str)) (a b : str) (c : span) : bool :=
+  negb (is_empty (sp_parent c)) &&
+  match lookup (pk c) svc with
+  | Some ps => negb (str_eqb ps (sp_service c)) && str_eqb ps a && str_eqb (sp_service c) b
+  | None => false
+  end.
+
+Lemma dep_fold svc a b l : forall mat,
+  dep_count (fold_left (dep_step_by pk svc) l mat) (a, b)
+  = dep_count mat (a, b) + N.of_nat (length (filter (dep_hit svc a b) l)).
+Proof.
+  induction l as [|c l IH]; intro mat; cbn [fold_left filter]; [cbn; lia|].
+  rewrite IH. unfold dep_step_by at 1. unfold dep_hit at 2.
+  destruct (is_empty (sp_parent c)); cbn [negb andb]; [lia|].
+  destruct (lookup (pk c) svc) as [ps|]; [|lia].
+  destruct (str_eqb ps (sp_service c)); cbn [negb andb]; [lia|].
+  rewrite dep_count_incr. unfold pair_eqb; cbn [fst snd].
+  destruct (str_eqb ps a && str_eqb (sp_service c) b); cbn [length]; lia.
+Qed.
+
 Lemma svc_fold_lookup x l : forall m0,
-  lookup x (fold_left (fun m s => insert (sp_id s) (sp_service s) m) l m0) =
-  match find (fun p => str_eqb (sp_id p) x) (rev l) with
+  lookup x (fold_left (fun m s => insert (kf s) (sp_service s) m) l m0) =
+  match find (fun p => str_eqb (kf p) x) (rev l) with
   | Some p => Some (sp_service p)
   | None => lookup x m0
   end.
 Proof.
   induction l as [|s l IH]; intro m0; cbn [fold_left rev]; [reflexivity|].
   rewrite IH, find_app. destruct (find _ (rev l)); [reflexivity|]. cbn [find].
-  destruct (str_eqb (sp_id s) x) eqn:E.
+  destruct (str_eqb (kf s) x) eqn:E.
   - apply str_eqb_eq in E; subst x. apply lookup_insert_same.
   - apply str_eqb_neq in E. apply lookup_insert_other, E.
 Qed.
 
-(* with unique span ids the service map holds the service of THE span with that id *)
-Lemma svc_map_spec recs x :
-  NoDup (map sp_id recs) ->
-  (forall p, In p recs -> sp_id p = x -> lookup x (svc_map recs) = Some (sp_service p)) /\
-  ((forall p, In p recs -> sp_id p <> x) -> lookup x (svc_map recs) = None).
+Lemma nodup_key_inj recs a b :
+  NoDup (map kf recs) -> In a recs -> In b recs -> kf a = kf b -> a = b.
 Proof.
-  intro Hnd. unfold svc_map. rewrite svc_fold_lookup. cbn [lookup]. split.
+  induction recs as [|s l IH]; cbn; intros Hnd Ha Hb E; [destruct Ha|].
+  inversion Hnd as [|? ? Hni Hnd']; subst.
+  destruct Ha as [Ha|Ha], Hb as [Hb|Hb].
+  - congruence.
+  - exfalso. apply Hni. subst a. rewrite E. apply in_map, Hb.
+  - exfalso. apply Hni. subst b. rewrite <- E. apply in_map, Ha.
+  - apply IH; assumption.
+Qed.
+
+(* with unique keys the service map holds the service of THE span with that key *)
+Lemma svc_map_spec recs x :
+  NoDup (map kf recs) ->
+  (forall p, In p recs -> kf p = x -> lookup x (svc_map_by kf recs) = Some (sp_service p)) /\
+  ((forall p, In p recs -> kf p <> x) -> lookup x (svc_map_by kf recs) = None).
+Proof.
+  intro Hnd. unfold svc_map_by. rewrite svc_fold_lookup. cbn [lookup]. split.
   - intros p Hp Hx. destruct (find _ (rev recs)) as [q|] eqn:Ef.
     + apply find_some in Ef as [Hq Hqx]. apply in_rev in Hq. apply str_eqb_eq in Hqx.
-      rewrite (nodup_id_inj recs q p Hnd Hq Hp); [reflexivity | congruence].
+      rewrite (nodup_key_inj recs q p Hnd Hq Hp); [reflexivity | congruence].
     + exfalso. assert (Hpr : In p (rev recs)) by (apply in_rev; rewrite rev_involutive; exact Hp).
       pose proof (find_none _ _ Ef p Hpr) as Hn. cbn in Hn. subst x. rewrite str_eqb_refl in Hn. discriminate.
   - intro Hno. destruct (find _ (rev recs)) as [q|] eqn:Ef; [|reflexivity].
     apply find_some in Ef as [Hq Hqx]. apply in_rev in Hq. apply str_eqb_eq in Hqx. exfalso. exact (Hno q Hq Hqx).
 Qed.
 
-Lemma filter_none_id l x (g : span -> bool) :
-  ~ In x (map sp_id l) -> filter (fun p => str_eqb (sp_id p) x && g p) l = [].
+Lemma filter_none_key l x (g : span -> bool) :
+  ~ In x (map kf l) -> filter (fun p => str_eqb (kf p) x && g p) l = [].
 Proof.
   induction l as [|q l IH]; cbn; intro Hni; [reflexivity|].
-  destruct (str_eqb (sp_id q) x) eqn:Eq.
+  destruct (str_eqb (kf q) x) eqn:Eq.
   - apply str_eqb_eq in Eq. exfalso. apply Hni. left. exact Eq.
   - cbn. apply IH. intro Hc; apply Hni; right; exact Hc.
 Qed.
 
-Lemma count_unique_id recs x (g : span -> bool) :
-  NoDup (map sp_id recs) ->
-  length (filter (fun p => str_eqb (sp_id p) x && g p) recs) =
-  match find (fun p => str_eqb (sp_id p) x) recs with Some p => if g p then 1%nat else 0%nat | None => 0%nat end.
+Lemma count_unique_key recs x (g : span -> bool) :
+  NoDup (map kf recs) ->
+  length (filter (fun p => str_eqb (kf p) x && g p) recs) =
+  match find (fun p => str_eqb (kf p) x) recs with Some p => if g p then 1%nat else 0%nat | None => 0%nat end.
 Proof.
   induction recs as [|s l IH]; cbn [filter find map]; intro Hnd; [reflexivity|].
   inversion Hnd as [|? ? Hni Hnd']; subst.
-  destruct (str_eqb (sp_id s) x) eqn:E; cbn [andb].
+  destruct (str_eqb (kf s) x) eqn:E; cbn [andb].
   - apply str_eqb_eq in E.
-    assert (Hz : filter (fun p => str_eqb (sp_id p) x && g p) l = []).
-    { apply filter_none_id. rewrite <- E. exact Hni. }
+    assert (Hz : filter (fun p => str_eqb (kf p) x && g p) l = []).
+    { apply filter_none_key. rewrite <- E. exact Hni. }
     destruct (g s); cbn [length]; rewrite Hz; reflexivity.
   - apply IH, Hnd'.
 Qed.
+End Keyed.
 
 Lemma filter_map_length {A B} (f : B -> bool) (g : A -> B) l :
   length (filter f (map g l)) = length (filter (fun x => f (g x)) l).
@@ -1106,100 +1143,165 @@ Lemma filter_length_sum {A} (f : A -> bool) l :
   length (filter f l) = list_sum (map (fun c => if f c then 1%nat else 0%nat) l).
 Proof. induction l as [|c l IH]; cbn; [reflexivity|]. destruct (f c); cbn; rewrite IH; reflexivity. Qed.
 
-(* dep_graph_counts_exact_guarded: when the whole window fits into the one page the handler reads and
-   span ids are unique, every cell of the matrix is the exact number of parent-child pairs *)
-Theorem dep_graph_counts_exact_guarded : forall page recs a b,
-  (length recs <= page)%nat -> NoDup (map sp_id recs) -> same_trace_parents recs = true -> a <> b ->
-  dep_count (dep_graph page recs) (a, b) = cross_pairs recs a b.
+(* dep_graph_counts_exact: the handler reads the whole window and looks parents up within the span's
+   own trace, so for ALL record lists in which a (trace id, span id) pair occurs once every cell of the
+   matrix is the exact number of parent-child pairs of one trace that cross those two services *)
+Theorem dep_graph_counts_exact : forall recs a b,
+  NoDup (map span_key recs) -> a <> b ->
+  dep_count (dep_graph recs) (a, b) = cross_pairs recs a b.
 Proof.
-  intros page recs a b Hlen Hnd Hst Hab. unfold dep_graph, cross_pairs, count_if.
-  rewrite firstn_all2 by exact Hlen. rewrite dep_fold. cbn [dep_count]. rewrite N.add_0_l. f_equal.
-  rewrite filter_list_prod_length, filter_length_sum. f_equal. apply map_ext_in. intros c Hc.
+  intros recs a b Hnd Hab. unfold dep_graph, cross_pairs, count_if.
+  rewrite (dep_fold span_key). cbn [dep_count]. rewrite N.add_0_l. f_equal.
+  rewrite filter_list_prod_length, filter_length_sum. f_equal. apply map_ext. intro c.
   unfold dep_hit, is_cross.
   destruct (is_empty (sp_parent c)) eqn:Ee; cbn [negb andb].
   { clear. induction recs as [|q l IHl]; [reflexivity|]. cbn. exact IHl. }
-  transitivity (length (filter (fun p => str_eqb (sp_id p) (sp_parent c) &&
-                                         (str_eqb (sp_trace p) (sp_trace c) &&
-                                          str_eqb (sp_service p) a && str_eqb (sp_service c) b)) recs)).
-  2:{ f_equal. apply filter_ext. intro p. rewrite !andb_assoc. reflexivity. }
-  rewrite (count_unique_id recs (sp_parent c) _ Hnd).
-  destruct (find (fun p => str_eqb (sp_id p) (sp_parent c)) recs) as [p|] eqn:Ef.
-  - apply find_some in Ef as [Hp Hpx].
-    assert (Htr : str_eqb (sp_trace p) (sp_trace c) = true).
-    { unfold same_trace_parents in Hst. rewrite forallb_forall in Hst. specialize (Hst c Hc).
-      rewrite forallb_forall in Hst. specialize (Hst p Hp). rewrite Hpx in Hst. exact Hst. }
-    apply str_eqb_eq in Hpx.
-    rewrite (proj1 (svc_map_spec recs (sp_parent c) Hnd) p Hp Hpx). rewrite Htr. cbn [andb].
+  transitivity (length (filter (fun p => str_eqb (span_key p) (parent_key c) &&
+                                         (str_eqb (sp_service p) a && str_eqb (sp_service c) b)) recs)).
+  2:{ f_equal. apply filter_ext. intro p. unfold span_key, parent_key. rewrite skey_eqb.
+      rewrite (andb_comm (str_eqb (sp_trace p) (sp_trace c))). rewrite !andb_assoc. reflexivity. }
+  rewrite (count_unique_key span_key recs (parent_key c) _ Hnd).
+  destruct (find (fun p => str_eqb (span_key p) (parent_key c)) recs) as [p|] eqn:Ef.
+  - apply find_some in Ef as [Hp Hpx]. apply str_eqb_eq in Hpx.
+    unfold svc_map. rewrite (proj1 (svc_map_spec span_key recs (parent_key c) Hnd) p Hp Hpx).
     destruct (str_eqb (sp_service p) a) eqn:Ea, (str_eqb (sp_service c) b) eqn:Eb; cbn; rewrite ?andb_false_r; try reflexivity.
     apply str_eqb_eq in Ea, Eb.
     assert (str_eqb (sp_service p) (sp_service c) = false) as -> by (apply str_eqb_neq; congruence). reflexivity.
-  - rewrite (proj2 (svc_map_spec recs (sp_parent c) Hnd)); [reflexivity|].
-    intros p Hp Hx. pose proof (find_none _ _ Ef p Hp) as Hn. cbn in Hn. rewrite Hx, str_eqb_refl in Hn. discriminate.
+  - unfold svc_map. rewrite (proj2 (svc_map_spec span_key recs (parent_key c) Hnd)); [reflexivity|].
+    intros p Hp Hx. pose proof (find_none _ _ Ef p Hp) as Hn. cbv beta in Hn. rewrite Hx, str_eqb_refl in Hn. discriminate.
 Qed.
 
-(* the diagonal is never counted *)
-Lemma dep_graph_no_diagonal page recs a : dep_count (dep_graph page recs) (a, a) = 0.
-Proof.
-  unfold dep_graph. rewrite dep_fold. cbn [dep_count].
-  assert (filter (dep_hit (svc_map (firstn page recs)) a a) (firstn page recs) = []) as ->; [|reflexivity].
-  induction (firstn page recs) as [|c l IH] at 2; [reflexivity|]. cbn [filter]. rewrite IH.
-  unfold dep_hit. destruct (is_empty (sp_parent c)); [reflexivity|]. cbn.
-  destruct (lookup (sp_parent c) (svc_map (firstn page recs))) as [ps|]; [|reflexivity].
-  destruct (str_eqb ps (sp_service c)) eqn:E1; [reflexivity|]. cbn.
-  destruct (str_eqb ps a) eqn:E2; [|reflexivity]. cbn.
-  destruct (str_eqb (sp_service c) a) eqn:E3; [|reflexivity].
-  apply str_eqb_eq in E2, E3. subst. rewrite str_eqb_refl in E1. discriminate.
-Qed.
-
-(* the witness of the confirmed defect: 150 traces, each a root in service "A" with one child in
-   service "B"; the handler sees the first 100 rows *)
+(* ---- PRE-FIX documentation (dep_graph_prefix): the two repaired defects ---- *)
+(* 150 traces, each a root in service "A" with one child in service "B"; the handler saw the first 100 rows *)
 Definition w_root (i : nat) : span := mkSpan [N.of_nat i] [1; N.of_nat i] [] [65] [114] 0 10 10 1.
 Definition w_child (i : nat) : span := mkSpan [N.of_nat i] [2; N.of_nat i] [1; N.of_nat i] [66] [99] 1 5 4 1.
 Definition w_150 : list span := flat_map (fun i => [w_root i; w_child i]) (seq 1 150).
 
-Theorem dep_graph_page_refuted :
-  exists recs, NoDup (map sp_id recs) /\ same_trace_parents recs = true /\ length recs = 300%nat /\
-    cross_pairs recs [65] [66] = 150 /\ dep_count (dep_graph DEFAULT_PAGE recs) ([65], [66]) = 50.
+Theorem prefix_dep_graph_page_refuted :
+  exists recs, NoDup (map span_key recs) /\ length recs = 300%nat /\
+    cross_pairs recs [65] [66] = 150 /\ dep_count (dep_graph_prefix DEFAULT_PAGE recs) ([65], [66]) = 50 /\
+    dep_count (dep_graph recs) ([65], [66]) = 150.
 Proof.
   exists w_150. split; [apply str_nodupb_NoDup; vm_compute; reflexivity|].
   split; [vm_compute; reflexivity|]. split; [vm_compute; reflexivity|]. split; vm_compute; reflexivity.
 Qed.
 
-(* CONFIRMED defect: spans are joined to their parents by span id alone.  Trace 1: root (service X1)
-   with child c1 (X2).  Trace 2: root (Y1) with a child (Y2) whose parent id is c1's id (which does
-   not exist in trace 2): the graph gets an edge X2 -> Y2 that no trace contains. *)
-Theorem dep_graph_cross_trace_refuted :
-  exists recs, NoDup (map sp_id recs) /\ (length recs <= DEFAULT_PAGE)%nat /\
-    cross_pairs recs [88;50] [89;50] = 0 /\ dep_count (dep_graph DEFAULT_PAGE recs) ([88;50], [89;50]) = 1.
+(* spans were joined to their parents by span id alone.  Trace 1: root (service X1) with child c1 (X2).
+   Trace 2: root (Y1) with a child (Y2) whose parent id is c1's id (which does not exist in trace 2):
+   the pre-fix graph has an edge X2 -> Y2 that no trace contains *)
+Definition w_cross : list span :=
+  [mkSpan [1] [1] [] [88;49] [114] 0 9 9 1; mkSpan [1] [2] [1] [88;50] [99] 1 2 1 1;
+   mkSpan [2] [3] [] [89;49] [114] 0 9 9 1; mkSpan [2] [4] [2] [89;50] [99] 1 2 1 1].
+Theorem prefix_dep_graph_cross_trace_refuted :
+  exists recs, NoDup (map span_key recs) /\ (length recs <= DEFAULT_PAGE)%nat /\
+    cross_pairs recs [88;50] [89;50] = 0 /\
+    dep_count (dep_graph_prefix DEFAULT_PAGE recs) ([88;50], [89;50]) = 1 /\
+    dep_count (dep_graph recs) ([88;50], [89;50]) = 0.
 Proof.
-  exists [mkSpan [1] [1] [] [88;49] [114] 0 9 9 1; mkSpan [1] [2] [1] [88;50] [99] 1 2 1 1;
-          mkSpan [2] [3] [] [89;49] [114] 0 9 9 1; mkSpan [2] [4] [2] [89;50] [99] 1 2 1 1].
+  exists w_cross.
   split; [apply str_nodupb_NoDup; vm_compute; reflexivity|].
-  split; [vm_compute; lia|]. split; vm_compute; reflexivity.
+  split; [vm_compute; lia|]. split; [vm_compute; reflexivity|]. split; vm_compute; reflexivity.
 Qed.
 
 (* ------------------------------------------------------------------ *)
 (* Part 4b: trace search                                               *)
 (* ------------------------------------------------------------------ *)
+(* ---- the Go string order and the sort of the buckets ---- *)
+Lemma str_ltb_irrefl a : str_ltb a a = false.
+Proof. induction a as [|x a IH]; cbn; [reflexivity|]. rewrite N.ltb_irrefl. exact IH. Qed.
+Lemma str_ltb_trans a : forall b c, str_ltb a b = true -> str_ltb b c = true -> str_ltb a c = true.
+Proof.
+  induction a as [|x a IH]; intros [|y b] [|z c] H1 H2; cbn in *; try discriminate; try reflexivity.
+  destruct (x <? y) eqn:Exy.
+  - destruct (y <? z) eqn:Eyz.
+    + assert (x <? z = true) as -> by (apply N.ltb_lt; apply N.ltb_lt in Exy, Eyz; lia). reflexivity.
+    + destruct (z <? y) eqn:Ezy; [discriminate|].
+      assert (y = z) by (apply N.ltb_ge in Eyz, Ezy; lia). subst z. rewrite Exy. reflexivity.
+  - destruct (y <? x) eqn:Eyx; [discriminate|].
+    assert (x = y) by (apply N.ltb_ge in Exy, Eyx; lia). subst y.
+    destruct (x <? z) eqn:Exz; [reflexivity|]. destruct (z <? x); [discriminate|]. eapply IH; eassumption.
+Qed.
+Lemma str_ltb_total a : forall b, str_ltb a b = false -> str_ltb b a = false -> a = b.
+Proof.
+  induction a as [|x a IH]; intros [|y b] H1 H2; cbn in *; try discriminate; [reflexivity|].
+  destruct (x <? y) eqn:Exy; [discriminate|]. destruct (y <? x) eqn:Eyx; [discriminate|].
+  assert (x = y) by (apply N.ltb_ge in Exy, Eyx; lia). subst y. f_equal. apply IH; assumption.
+Qed.
+Lemma str_ltb_asym a b : str_ltb a b = true -> str_ltb b a = false.
+Proof.
+  intro H. destruct (str_ltb b a) eqn:E; [|reflexivity].
+  pose proof (str_ltb_trans _ _ _ H E) as Hc. rewrite str_ltb_irrefl in Hc. discriminate.
+Qed.
+Definition str_le (a b : str) : Prop := str_ltb b a = false.
+Lemma str_le_trans a b c : str_le a b -> str_le b c -> str_le a c.
+Proof.
+  unfold str_le. intros H1 H2. destruct (str_ltb c a) eqn:E; [|reflexivity].
+  (* c < a, b <= c (not c < b), a <= b (not b < a) *)
+  destruct (str_ltb a b) eqn:Eab.
+  - pose proof (str_ltb_trans _ _ _ E Eab) as Hc. congruence.
+  - assert (a = b) by (apply str_ltb_total; assumption). subst b. congruence.
+Qed.
+
+Lemma str_insert_perm x l : Permutation (str_insert x l) (x :: l).
+Proof.
+  induction l as [|y r IH]; cbn; [apply Permutation_refl|].
+  destruct (str_ltb x y); [apply Permutation_refl|].
+  etransitivity; [apply perm_skip, IH | apply perm_swap].
+Qed.
+Lemma str_sort_perm l : Permutation (str_sort l) l.
+Proof.
+  induction l as [|a l IH]; cbn; [constructor|].
+  etransitivity; [apply str_insert_perm | apply perm_skip, IH].
+Qed.
+Lemma str_insert_sorted x l : StronglySorted str_le l -> StronglySorted str_le (str_insert x l).
+Proof.
+  induction 1 as [|y r Hr IH Hy]; cbn [str_insert].
+  - constructor; constructor.
+  - destruct (str_ltb x y) eqn:E.
+    + constructor; [constructor; assumption|].
+      assert (Hxy : str_le x y) by (unfold str_le; apply str_ltb_asym, E).
+      constructor; [exact Hxy|]. eapply Forall_impl; [|exact Hy]. intros z Hz. eapply str_le_trans; eassumption.
+    + constructor; [exact IH|].
+      apply (Permutation_Forall (Permutation_sym (str_insert_perm x r))).
+      constructor; [exact E | exact Hy].
+Qed.
+Lemma str_sort_sorted l : StronglySorted str_le (str_sort l).
+Proof. induction l as [|a l IH]; cbn; [constructor | apply str_insert_sorted, IH]. Qed.
+Lemma str_sorted_perm_unique : forall l1 l2,
+  StronglySorted str_le l1 -> StronglySorted str_le l2 -> Permutation l1 l2 -> l1 = l2.
+Proof.
+  induction l1 as [|x l1 IH]; intros [|y l2] S1 S2 P.
+  - reflexivity.
+  - apply Permutation_nil in P. discriminate.
+  - apply Permutation_sym, Permutation_nil in P. discriminate.
+  - apply StronglySorted_inv in S1 as [S1 F1]. apply StronglySorted_inv in S2 as [S2 F2].
+    assert (Hx : In x (y :: l2)) by (apply (Permutation_in _ P); left; reflexivity).
+    assert (Hy : In y (x :: l1)) by (apply (Permutation_in _ (Permutation_sym P)); left; reflexivity).
+    rewrite Forall_forall in F1, F2.
+    assert (E : x = y).
+    { destruct Hx as [Hx|Hx]; [auto|]. destruct Hy as [Hy|Hy]; [auto|].
+      apply F2 in Hx. apply F1 in Hy. unfold str_le in *. apply str_ltb_total; assumption. }
+    subst y. f_equal. apply IH; auto. eapply Permutation_cons_inv; exact P.
+Qed.
+(* whatever order the engine returns the buckets in, the handler slices the same sequence *)
+Lemma str_sort_perm_eq l1 l2 : Permutation l1 l2 -> str_sort l1 = str_sort l2.
+Proof.
+  intro P. apply str_sorted_perm_unique; try apply str_sort_sorted.
+  etransitivity; [apply str_sort_perm|]. etransitivity; [exact P|]. apply Permutation_sym, str_sort_perm.
+Qed.
+
 Lemma firstn_skipn_add {A} a b : forall l : list A, firstn a l ++ firstn b (skipn a l) = firstn (a + b) l.
 Proof.
   induction a as [|a IH]; intro l; cbn; [reflexivity|].
   destruct l as [|x l]; cbn; [destruct b; reflexivity|]. rewrite IH. reflexivity.
 Qed.
-(* the pages 1..n of ONE bucket order are consecutive pieces of it *)
-Lemma pages_concat buckets n :
-  flat_map (page_ids buckets) (seq 1 n) = firstn (n * TRACE_PAGE_LIMIT) buckets.
+(* the pages 1..n are consecutive pieces of the sequence *)
+Lemma pages_concat ids n :
+  flat_map (page_slice ids) (seq 1 n) = firstn (n * TRACE_PAGE_LIMIT) ids.
 Proof.
   induction n as [|n IH]; [reflexivity|].
-  rewrite seq_S, flat_map_app, IH. cbn [flat_map]. rewrite app_nil_r. unfold page_ids.
+  rewrite seq_S, flat_map_app, IH. cbn [flat_map]. rewrite app_nil_r. unfold page_slice.
   replace (1 + n - 1)%nat with n by lia. rewrite firstn_skipn_add. f_equal. lia.
-Qed.
-Lemma firstn_in' {A} n (l : list A) x : In x (firstn n l) -> In x l.
-Proof. intro H. rewrite <- (firstn_skipn n l). apply in_or_app; left; exact H. Qed.
-Lemma page_ids_incl buckets p : incl (page_ids buckets p) buckets.
-Proof.
-  unfold page_ids. intros x Hx. apply firstn_in' in Hx.
-  rewrite <- (firstn_skipn ((p - 1) * TRACE_PAGE_LIMIT) buckets). apply in_or_app; right; exact Hx.
 Qed.
 
 Lemma summarise_ids winS winE recs t :
@@ -1212,40 +1314,61 @@ Proof.
   destruct (listable winS winE recs t); reflexivity.
 Qed.
 
-(* The full statement ("trace search lists each trace rooted in the window exactly once, with its
-   root service/operation and its span and error counts") holds when all page requests see the
-   group-by buckets in the same order and no trace of the window has several root start/end times. *)
-Theorem search_lists_each_trace_once_guarded : forall winS winE recs buckets n,
-  NoDup buckets -> (length buckets <= n * TRACE_PAGE_LIMIT)%nat ->
-  existsb (aborts winS winE recs) buckets = false ->
-  (forall p, search_traces winS winE recs buckets p
-             = Some (flat_map (summarise winS winE recs) (page_ids buckets p))) /\
-  let listed := flat_map (fun p => flat_map (summarise winS winE recs) (page_ids buckets p)) (seq 1 n) in
-  map ts_id listed = filter (listable winS winE recs) buckets /\
+(* search_lists_each_trace_once: "trace search lists each trace rooted in the window exactly once, with
+   its root service/operation and its span and error counts" for ALL span lists, when every page
+   request [p] gets the buckets in its own arbitrary order [bo p] (any permutation of the distinct
+   trace ids): the pages 1..n together list exactly the listable traces, each once. *)
+Theorem search_lists_each_trace_once : forall winS winE recs (bo : nat -> list str) n,
+  (forall p, Permutation (bo p) (distinct_traces recs)) -> NoDup (distinct_traces recs) ->
+  (length (distinct_traces recs) <= n * TRACE_PAGE_LIMIT)%nat ->
+  let listed := flat_map (fun p => search_traces winS winE recs (bo p) p) (seq 1 n) in
+  map ts_id listed = filter (listable winS winE recs) (str_sort (distinct_traces recs)) /\
   NoDup (map ts_id listed) /\
+  (forall t, In t (map ts_id listed) <-> In t (map sp_trace recs) /\ listable winS winE recs t = true) /\
   forall s, In s listed ->
     root_info_of winS winE recs (ts_id s) = ROk (ts_start s) (ts_end s) (ts_service s) (ts_name s) /\
     ts_count s = count_if (of_trace (ts_id s)) recs /\
     ts_errs s = count_if (fun x => of_trace (ts_id s) x && is_error x) recs.
 Proof.
-  intros winS winE recs buckets n Hnd Hlen Hab.
-  assert (Hpage : forall p, existsb (aborts winS winE recs) (page_ids buckets p) = false).
-  { intro p. apply not_true_is_false. intro Hc. apply existsb_exists in Hc as [t [Ht Ha]].
-    assert (existsb (aborts winS winE recs) buckets = true); [|congruence].
-    apply existsb_exists. exists t. split; [apply (page_ids_incl buckets p), Ht | exact Ha]. }
-  split.
-  - intro p. unfold search_traces, search_page. rewrite Hpage. reflexivity.
-  - cbn zeta.
-    assert (Hcat : flat_map (fun p => flat_map (summarise winS winE recs) (page_ids buckets p)) (seq 1 n)
-                   = flat_map (summarise winS winE recs) buckets).
-    { transitivity (flat_map (summarise winS winE recs) (flat_map (page_ids buckets) (seq 1 n))).
-      - induction (seq 1 n) as [|p l IH]; [reflexivity|]. cbn [flat_map]. rewrite flat_map_app, IH. reflexivity.
-      - rewrite pages_concat, (firstn_all2 buckets Hlen). reflexivity. }
-    rewrite Hcat. split; [apply listed_ids|]. split; [rewrite listed_ids; apply NoDup_filter, Hnd|].
-    intros s Hs. apply in_flat_map in Hs as [t [_ Hs]]. unfold summarise in Hs.
+  intros winS winE recs bo n Hbo Hnd Hlen. cbv zeta.
+  set (ids := str_sort (distinct_traces recs)).
+  assert (Hp : forall p, search_traces winS winE recs (bo p) p = flat_map (summarise winS winE recs) (page_slice ids p)).
+  { intro p. unfold search_traces, search_page, page_ids. rewrite (str_sort_perm_eq _ _ (Hbo p)). reflexivity. }
+  assert (Hcat : flat_map (fun p => search_traces winS winE recs (bo p) p) (seq 1 n)
+                 = flat_map (summarise winS winE recs) ids).
+  { transitivity (flat_map (summarise winS winE recs) (flat_map (page_slice ids) (seq 1 n))).
+    - induction (seq 1 n) as [|p l IH]; [reflexivity|]. cbn [flat_map]. rewrite flat_map_app, IH, Hp. reflexivity.
+    - rewrite pages_concat, firstn_all2; [reflexivity|].
+      unfold ids. rewrite (Permutation_length (str_sort_perm _)). exact Hlen. }
+  rewrite Hcat.
+  assert (Hids : NoDup ids) by (eapply Permutation_NoDup; [apply Permutation_sym, str_sort_perm | exact Hnd]).
+  split; [apply listed_ids|]. split; [rewrite listed_ids; apply NoDup_filter, Hids|]. split.
+  - intro t. rewrite listed_ids, filter_In. split; intros [H1 H2]; (split; [|exact H2]).
+    + apply (Permutation_in _ (str_sort_perm _)) in H1. revert H1. unfold distinct_traces.
+      generalize (map sp_trace recs). intro l. induction l as [|x l IH]; cbn; [tauto|].
+      destruct (existsb (str_eqb x) l); [intro H; right; apply IH, H|].
+      intros [H|H]; [left; exact H | right; apply IH, H].
+    + apply (Permutation_in _ (Permutation_sym (str_sort_perm _))). revert H1. unfold distinct_traces.
+      generalize (map sp_trace recs). intro l. induction l as [|x l IH]; cbn; [tauto|].
+      destruct (existsb (str_eqb x) l) eqn:Ex.
+      * intros [H|H]; [subst; apply IH; apply existsb_str_in, Ex | apply IH, H].
+      * intros [H|H]; [left; exact H | right; apply IH, H].
+  - intros s Hs. apply in_flat_map in Hs as [t [_ Hs]]. unfold summarise in Hs.
     destruct (root_info_of winS winE recs t) eqn:Er; try (destruct Hs; fail).
     destruct Hs as [<-|[]]. cbn. rewrite Er. repeat split; reflexivity.
 Qed.
+
+Lemma dedup_nodup l : NoDup (dedup_by str_eqb l).
+Proof.
+  induction l as [|x l IH]; cbn; [constructor|].
+  destruct (existsb (str_eqb x) l) eqn:E; [exact IH|]. constructor; [|exact IH].
+  intro Hin. assert (In x l).
+  { clear - Hin. induction l as [|y l IHl]; cbn in *; [tauto|].
+    destruct (existsb (str_eqb y) l); [right; apply IHl, Hin|]. destruct Hin as [H|H]; [left; exact H | right; apply IHl, H]. }
+  apply existsb_str_in in H. congruence.
+Qed.
+Lemma distinct_traces_nodup recs : NoDup (distinct_traces recs).
+Proof. apply dedup_nodup. Qed.
 
 (* no_cross_trace_attribution (search): the summary of trace t is a function of the spans of t only *)
 Lemma filter_filter_and {A} (f g : A -> bool) l : filter f (filter g l) = filter (fun x => g x && f x) l.
@@ -1263,7 +1386,7 @@ Proof.
                          = count_if (fun x => of_trace t x && g x) recs).
   { intro g. unfold count_if. rewrite filter_filter_and. f_equal. f_equal. apply filter_ext. intro s.
     destruct (of_trace t s); reflexivity. }
-  unfold summarise, root_info_of. rewrite Hr.
+  unfold summarise, root_info_of, root_info_gen. rewrite Hr.
   pose proof (Hc (fun _ => true)) as Hc1. pose proof (Hc is_error) as Hc2.
   assert (He : forall l, count_if (fun x => of_trace t x && true) l = count_if (of_trace t) l).
   { intro l. unfold count_if. f_equal. f_equal. apply filter_ext. intro s. apply andb_true_r. }
@@ -1276,38 +1399,42 @@ Proof.
   intros. rewrite (summary_depends_on_own_spans winS winE recs), (summary_depends_on_own_spans winS winE recs'). congruence.
 Qed.
 
-(* CONFIRMED defect 1: the bucket order of the group-by differs between two page requests
-   (it is the iteration order of a Go map): page 1 and page 2 together list one trace twice and
-   another one never.  51 single-span traces. *)
+(* ---- PRE-FIX documentation (search_traces_prefix): the two repaired defects ---- *)
+(* 1: the buckets were sliced in the order of the response, which differs between two page requests
+   (iteration order of a Go map): page 1 and page 2 together listed one trace twice and another one
+   never.  51 single-span traces.  The fixed handler lists every trace once for the same two orders. *)
 Definition w_single (i : nat) : span := mkSpan [N.of_nat i] [N.of_nat i] [] [65] [114] 5 6 1 1.
 Definition w_51 : list span := map w_single (seq 1 51).
 Definition w_b1 : list str := map (fun i => [N.of_nat i]) (seq 1 51).
-Theorem search_pages_refuted :
+Theorem prefix_search_pages_refuted :
   exists recs b1 b2 t_twice t_never,
     Permutation b1 b2 /\ NoDup b1 /\ b1 = distinct_traces recs /\
     listable 0 1 recs t_twice = true /\ listable 0 1 recs t_never = true /\
-    match search_traces 0 1 recs b1 1, search_traces 0 1 recs b2 2 with
+    match search_traces_prefix 0 1 recs b1 1, search_traces_prefix 0 1 recs b2 2 with
     | Some p1, Some p2 =>
       count_if (fun s => str_eqb (ts_id s) t_twice) (p1 ++ p2) = 2 /\
       count_if (fun s => str_eqb (ts_id s) t_never) (p1 ++ p2) = 0
     | _, _ => False
-    end.
+    end /\
+    let p12 := search_traces 0 1 recs b1 1 ++ search_traces 0 1 recs b2 2 in
+    count_if (fun s => str_eqb (ts_id s) t_twice) p12 = 1 /\ count_if (fun s => str_eqb (ts_id s) t_never) p12 = 1.
 Proof.
   exists w_51, w_b1, (rev w_b1), [1], [51].
   split; [apply Permutation_rev|]. split; [apply str_nodupb_NoDup; vm_compute; reflexivity|].
   split; [vm_compute; reflexivity|]. split; [vm_compute; reflexivity|]. split; [vm_compute; reflexivity|].
-  vm_compute. split; reflexivity.
+  split; vm_compute; split; reflexivity.
 Qed.
 
-(* CONFIRMED defect 2: one trace with two root spans that start at different times makes the whole
-   page fail (HTTP 500), the well-formed trace next to it is not listed *)
-Theorem search_abort_refuted :
-  exists recs t, listable 0 1 recs t = true /\ search_traces 0 1 recs (distinct_traces recs) 1 = None.
-Proof.
-  exists [mkSpan [1] [1] [] [65] [114] 5 6 1 1;
-          mkSpan [2] [2] [] [65] [114] 5 6 1 1; mkSpan [2] [3] [] [65] [114] 7 8 1 1], [1].
-  split; vm_compute; reflexivity.
-Qed.
+(* 2: one trace with two root spans that start at different times made the whole page fail (HTTP 500),
+   the well-formed trace next to it was not listed; the fixed handler lists it *)
+Definition w_two_roots : list span :=
+  [mkSpan [1] [1] [] [65] [114] 5 6 1 1;
+   mkSpan [2] [2] [] [65] [114] 5 6 1 1; mkSpan [2] [3] [] [65] [114] 7 8 1 1].
+Theorem prefix_search_abort_refuted :
+  exists recs t, listable 0 1 recs t = true /\
+    search_traces_prefix 0 1 recs (distinct_traces recs) 1 = None /\
+    map ts_id (search_traces 0 1 recs (distinct_traces recs) 1) = [t].
+Proof. exists w_two_roots, [1]. split; [vm_compute; reflexivity|]. split; vm_compute; reflexivity. Qed.
 
 (* ------------------------------------------------------------------ *)
 (* Part 4c: RED metrics                                                *)
@@ -1347,23 +1474,27 @@ Proof.
       apply str_eqb_neq in E. rewrite E. reflexivity.
 Qed.
 
-Lemma is_entry_spec recs s : NoDup (map sp_id recs) -> is_entry (svc_map recs) s = entry_spec recs s.
+Lemma key_match p s : str_eqb (span_key p) (parent_key s) = str_eqb (sp_trace p) (sp_trace s) && str_eqb (sp_id p) (sp_parent s).
+Proof. unfold span_key, parent_key. apply skey_eqb. Qed.
+
+Lemma is_entry_spec recs s : NoDup (map span_key recs) -> is_entry (svc_map recs) s = entry_spec recs s.
 Proof.
   intro Hnd. unfold is_entry, entry_spec. destruct (is_empty (sp_parent s)); [reflexivity|]. cbn [orb].
-  destruct (existsb (fun p => str_eqb (sp_id p) (sp_parent s)) recs) eqn:Ex.
-  - apply existsb_exists in Ex as [p [Hp Hx]]. apply str_eqb_eq in Hx.
-    rewrite (proj1 (svc_map_spec recs _ Hnd) p Hp Hx). f_equal.
+  destruct (existsb (fun p => str_eqb (span_key p) (parent_key s)) recs) eqn:Ex.
+  - apply existsb_exists in Ex as [p [Hp Hx]]. pose proof Hx as Hm. rewrite key_match in Hm.
+    apply str_eqb_eq in Hx. unfold svc_map.
+    rewrite (proj1 (svc_map_spec span_key recs _ Hnd) p Hp Hx). f_equal.
     destruct (str_eqb (sp_service p) (sp_service s)) eqn:Es.
-    + symmetry. apply existsb_exists. exists p. split; [exact Hp|]. rewrite Hx, str_eqb_refl, Es. reflexivity.
+    + symmetry. apply existsb_exists. exists p. split; [exact Hp|]. rewrite Hm, Es. reflexivity.
     + symmetry. apply not_true_is_false. intro Hc. apply existsb_exists in Hc as [q [Hq Hqq]].
-      apply andb_true_iff in Hqq as [H1 H2]. apply str_eqb_eq in H1.
-      rewrite (nodup_id_inj recs q p Hnd Hq Hp) in H2 by congruence. congruence.
-  - rewrite (proj2 (svc_map_spec recs _ Hnd)).
+      apply andb_true_iff in Hqq as [H1 H2]. rewrite <- key_match in H1. apply str_eqb_eq in H1.
+      rewrite (nodup_key_inj span_key recs q p Hnd Hq Hp) in H2 by congruence. congruence.
+  - unfold svc_map. rewrite (proj2 (svc_map_spec span_key recs _ Hnd)).
     + symmetry. apply negb_true_iff. apply not_true_is_false. intro Hc. apply existsb_exists in Hc as [q [Hq Hqq]].
-      apply andb_true_iff in Hqq as [H1 _].
-      assert (existsb (fun p => str_eqb (sp_id p) (sp_parent s)) recs = true); [|congruence].
+      apply andb_true_iff in Hqq as [H1 _]. rewrite <- key_match in H1.
+      assert (existsb (fun p => str_eqb (span_key p) (parent_key s)) recs = true); [|congruence].
       apply existsb_exists. exists q. tauto.
-    + intros p Hp Hx. assert (existsb (fun p => str_eqb (sp_id p) (sp_parent s)) recs = true); [|congruence].
+    + intros p Hp Hx. assert (existsb (fun p => str_eqb (span_key p) (parent_key s)) recs = true); [|congruence].
       apply existsb_exists. exists p. split; [exact Hp | rewrite Hx; apply str_eqb_refl].
 Qed.
 
@@ -1378,7 +1509,7 @@ Qed.
    that number / 60), the number of erroring entry spans (error rate = 100 * that / number) and the
    interpolated percentiles of the sorted millisecond durations of exactly those spans *)
 Theorem red_metrics_exact : forall recs svc,
-  NoDup (map sp_id recs) -> Forall (fun s => sp_dur s < pow2_64) recs ->
+  NoDup (map span_key recs) -> Forall (fun s => sp_dur s < pow2_64) recs ->
   let es := filter (fun s => entry_spec recs s && str_eqb (sp_service s) svc) recs in
   let ds := n_sort (map (fun s => sp_dur s / 1000000) es) in
   lookup svc (red_metrics recs) =
@@ -1476,3 +1607,7 @@ Proof.
   rewrite fold_left_app. cbn [fold_left]. unfold svc_step at 2. cbn [fst snd]. rewrite str_eqb_refl.
   apply svc_fold_keep, H.
 Qed.
+
+Theorem bucket_order_irrelevant : forall winS winE recs b1 b2 p,
+  Permutation b1 b2 -> search_traces winS winE recs b1 p = search_traces winS winE recs b2 p.
+Proof. intros. unfold search_traces, page_ids. rewrite (str_sort_perm_eq b1 b2); auto. Qed.
